@@ -88,6 +88,11 @@ package sessiontracker
 //@   | && (forall a string, b string :: has(SMap(o), a) && has(SMap(o), b) && a != b ==> SMap(o)[a] != SMap(o)[b])
 //@   | && (forall pid int :: has(PMap(o), pid) ==> PMap(o)[pid].PID == pid && PMap(o)[pid].Source != nil && alloc(PMap(o)[pid].Source) && pid > 0)
 
+// Causal(o) (C10): the UserLogin event of every login held by the tracker has already been written.
+//@ pred Causal(o) := (forall sid string :: has(SMap(o), sid) && SMap(o)[sid].hasRUL ==> Written(SMap(o)[sid].login.Source))
+//@   | && (forall pid int :: has(PMap(o), pid) ==> Written(PMap(o)[pid].Source))
+//@ pred After(i) := writtenat(out[i].by) > 0 && writtenat(out[i].by) <= i
+
 //@ pred Matched(o, rul, sid) := old(has(SMap(o), sid)) && old(SMap(o)[sid].srcPID) == rul.PID
 //@ pred ValidRUL(rul) := rul.Source != nil && rul.PID > 0 && rul.CredUserID != ""
 
@@ -111,6 +116,7 @@ package sessiontracker
 //@   ensures[park] result == nil && (forall sid string :: !Matched(o, rul, sid)) ==> len(out) == old(len(out)) && has(PMap(o), rul.PID) && PMap(o)[rul.PID] == rul
 //@   |   && kept_old("F!sessiontracker.user!*") && kept_old("M!map<string;^sessiontracker.user>!*")
 //@   ensures[prefix] outprefix_kept()
+//@   ensures[causal] old(Causal(o)) && old(Written(rul.Source)) ==> (result == nil ==> Causal(o)) && (forall i int :: old(len(out)) <= i && i < len(out) ==> After(i))
 //@   loop Iterate#1 invariant[nf] !found && writeErr == nil && len(out) == old(len(out))
 //@   loop Iterate#1 invariant[vis] forall k string :: visited[k] ==> has(SMap(o), k) && SMap(o)[k].srcPID != rul.PID
 //@   loop Iterate#1 invariant[frame] kept("F!*") && kept("M!*") && kept("S!*") && kept("G!*") && kept("A") && kept("I!*")
@@ -152,6 +158,7 @@ package sessiontracker
 //@   |          out[i].by == old(SMap(o)[event.Session].login.Source) && old(SMap(o)[event.Session].login.PID) == g_opened[event.Session],
 //@   |          out[i].by == old(PMap(o)[atoival(event.Process.PID)].Source) && old(PMap(o)[atoival(event.Process.PID)].PID) == g_opened[event.Session])
 //@   ensures[err] result != nil ==> wfailed || (event.Type == auparse.AUDIT_LOGIN && !atoiok(event.Process.PID))
+//@   ensures[causal] old(Causal(o)) ==> (result == nil ==> Causal(o)) && (forall i int :: old(len(out)) <= i && i < len(out) ==> After(i))
 //@   ensures[prefix] outprefix_kept()
 //@   assert_at Write[render] EvIs(e, u.login.Source, event) && g_evsrc[e] == event && g_evby[e] == u.login.Source
 
@@ -165,6 +172,7 @@ package sessiontracker
 //@   allocates "F!auditevent.AuditEvent!*", "M!*"
 //@   requires TrackerInv(o)
 //@   ensures[inv] TrackerInv(o)
+//@   ensures[causal] old(Causal(o)) ==> Causal(o)
 //@   ensures[dom] forall sid string :: has(SMap(o), sid) <==> (old(has(SMap(o), sid)) && !old(Stale(SMap(o)[sid], t)))
 //@   ensures[val] forall sid string :: has(SMap(o), sid) ==> SMap(o)[sid] == old(SMap(o)[sid])
 //@   ensures[frame] len(out) == old(len(out)) && kept_old("F!*") && kept_old("S!*") && kept_old("M!map<int>common.RemoteUserLogin!*") && kept_old("M!map<string>^sessiontracker.user!val*")
@@ -179,6 +187,7 @@ package sessiontracker
 //@   allocates "F!auditevent.AuditEvent!*", "M!*"
 //@   requires TrackerInv(o)
 //@   ensures[inv] TrackerInv(o)
+//@   ensures[causal] old(Causal(o)) ==> Causal(o)
 //@   ensures[dom] forall pid int :: has(PMap(o), pid) <==> (old(has(PMap(o), pid)) && !(old(PMap(o)[pid].Source.LoggedAt) < t))
 //@   ensures[val] forall pid int :: has(PMap(o), pid) ==> PMap(o)[pid] == old(PMap(o)[pid])
 //@   ensures[frame] len(out) == old(len(out)) && kept_old("F!*") && kept_old("S!*") && kept_old("M!map<string>^sessiontracker.user!*") && kept_old("M!map<int>common.RemoteUserLogin!val*")
@@ -191,4 +200,5 @@ package sessiontracker
 //@   modifies nothing
 //@   allocates "F!sessiontracker.sessionTracker!*", "F!common.GenericSyncMap*", "M!*"
 //@   ensures[inv] TrackerInv(result)
+//@   ensures[causal] Causal(result)
 //@   ensures[fresh] fresh(result)
